@@ -7,6 +7,9 @@
 import VK.Model.Generated
 import VK.Model.STV
 import VK.Model.Dist
+import VK.Model.Gen
+import Mathlib.Algebra.Order.Field.Rat
+import Mathlib.Tactic.Linarith
 import Mathlib.Tactic.Ring
 import Mathlib.Tactic.FieldSimp
 
@@ -51,5 +54,61 @@ theorem kernel_boosted_branch (n : Nat) : Generated.boostedBranch n = 1 / ((n : 
   first
     | rfl
     | ring
+
+/-! ### MCMC acceptance probabilities (C16) -/
+
+theorem rmin2_eq (a b : Rat) : Generated.rmin2 a b = Gen.rmin a b := rfl
+
+/-- the source's acceptance probability for a swap that moves the bloc's own slate down is the one
+the model's chain (and its reversibility theorem) uses, for every cohesion `c ≥ 0` -/
+theorem kernel_slate_accept_down (c : Rat) (hc : 0 ≤ c) :
+    Generated.slateAcceptDown c = (if c = 0 then 1 else Gen.rmin 1 ((1 - c) / c)) := by
+  unfold Generated.slateAcceptDown
+  by_cases h : c = 0
+  · subst h; simp
+  · have : c > 0 := lt_of_le_of_ne hc (Ne.symm h)
+    simp only [h, if_false, rmin2_eq]
+    first
+      | simp only [this, if_true]
+      | (simp [this])
+
+/-- … and for the swap that moves it up, for every cohesion `c ≤ 1` -/
+theorem kernel_slate_accept_up (c : Rat) (hc : c ≤ 1) :
+    Generated.slateAcceptUp c = (if c = 1 then 1 else Gen.rmin 1 (c / (1 - c))) := by
+  unfold Generated.slateAcceptUp
+  by_cases h : c = 1
+  · subst h; simp
+  · have : c < 1 := lt_of_le_of_ne hc h
+    simp only [h, if_false, rmin2_eq]
+    first
+      | simp only [this, if_true]
+      | (simp [this])
+
+/-- the model's slate chain uses exactly the source's two expressions -/
+theorem kernel_slate_accept_used (c : Rat) (h0 : 0 ≤ c) (h1 : c ≤ 1) (t : List Bool) (j : Nat) :
+    Gen.slateAccept c t j =
+      (match t[j]?, t[j + 1]? with
+       | some true, some false => some (Generated.slateAcceptDown c)
+       | some false, some true => some (Generated.slateAcceptUp c)
+       | some _, some _ => some 1
+       | _, _ => none) := by
+  unfold Gen.slateAccept
+  rw [kernel_slate_accept_down c h0, kernel_slate_accept_up c h1]
+  generalize t[j]? = a
+  generalize t[j + 1]? = b
+  rcases a with _ | (_ | _) <;> rcases b with _ | (_ | _) <;> rfl
+
+/-- the source's name-BT acceptance probability is the model's -/
+theorem kernel_bt_accept (x1 x2 : Rat) : Generated.btAccept x1 x2 = Gen.rmin 1 (x2 / x1) := by
+  unfold Generated.btAccept
+  first
+    | rfl
+    | simp only [rmin2_eq]
+
+theorem kernel_bt_accept_used (x : List (Cand × Rat)) (r : List Cand) (j : Nat) (a b : Cand)
+    (ha : r[j]? = some a) (hb : r[j + 1]? = some b) (hx : lookupScore x a ≠ 0) :
+    Gen.btAccept x r j = some (Generated.btAccept (lookupScore x a) (lookupScore x b)) := by
+  unfold Gen.btAccept
+  simp only [ha, hb, hx, if_false, kernel_bt_accept]
 
 end VK
